@@ -82,7 +82,7 @@ Definition conform_oracle (input rb : json) (token : string) : option string :=
   | [] => None
   | _ :: _ => Some "the independent verifier does not reconstruct the expected claims from a sub-list of the disclosures" end.
 
-Definition case_conform (input obs : json) : verdict :=
+Definition case_conform_one (input obs : json) : verdict :=
   let eo := jget "encode" obs in
   if obs_is "panic" eo then VPropFail "Issuer::encode panics"
   else if jbool (jget "reserved_input" input) then
@@ -94,6 +94,10 @@ Definition case_conform (input obs : json) : verdict :=
   else match conform_oracle input (jget "readback" obs) (jstr_or_empty (obs_val eo)) with
        | Some w => VPropFail ("issued SD-JWT is not conformant: " ++ w)
        | None => VOk (jbool (jget "nontrivial" input)) end.
+
+(* every SD-JWT the same issuer object produces is judged (repeated encode, retry after a failed attempt) *)
+Definition case_conform (input obs : json) : verdict :=
+  fold_left (fun acc call => worst acc (case_conform_one input call)) (jlist (jget "more" obs)) (case_conform_one input obs).
 
 (* ---- Disclosure::build ---- *)
 Definition discbuild_oracle (input o : json) : option string :=
